@@ -142,10 +142,31 @@ def runXzdec (ws : List String) : Option String :=
     pure s!"exit={ex} off={d'.offset} size={d'.content.length} content={toRle d'.content}"
   | _ => none
 
+def parseEv (s : String) : Option Ev :=
+  match s.toList with
+  | 'W' :: r => (String.ofList r).toNat?.map Ev.write
+  | 'E' :: r => (String.ofList r).toNat?.map Ev.seekEnd
+  | 'F' :: a :: b :: [] => some (Ev.setfl (a == '1') (b == '1'))
+  | 'C' :: r =>
+    match (String.ofList r).splitOn ":" with
+    | [d, x] => do pure (Ev.seekCur (← d.toNat?) (← x.toNat?))
+    | _ => none
+  | _ => none
+
+/-- `accept <events> <bytes>`: is the trace a partition of the bytes into written ranges and skipped zero ranges? -/
+def runAccept (ws : List String) : Option String :=
+  match ws with
+  | [tr, bytes] => do
+    let evs ← if tr == "-" then some [] else (tr.splitOn ",").mapM parseEv
+    let W ← parseRle bytes
+    pure (if traceDelivers evs W false then "accept" else "reject")
+  | _ => none
+
 def step (_ : Unit) (ws : List String) : Unit × String :=
   match ws with
   | "xz" :: rest => ((), (runXz rest).getD "bad-op")
   | "xzdec" :: rest => ((), (runXzdec rest).getD "bad-op")
+  | "accept" :: rest => ((), (runAccept rest).getD "bad-op")
   | ["cfg"] => ((), s!"bufSize={cfg.bufSize} pendingMax={cfg.pendingMax} failFlush={b01 cfg.failFlush}")
   | _ => ((), "bad-op")
 
